@@ -161,6 +161,17 @@ Theorem C04_fixed_point_tree : forall strtod fmt_d fmt_g15 fmt_g17 sscanf_lg,
 Proof. exact reparsed_idempotent. Qed.
 Print Assumptions C04_fixed_point_tree.
 
+(** the re-parsed tree satisfies the tree hypotheses again, with the same nesting depth: the
+    theorems apply to it (trees that came from the parser), the cycle can be repeated *)
+Theorem C04_reparsed_hyps : forall strtod fmt_d fmt_g15 fmt_g17 sscanf_lg,
+  LibcRoundTripSpec strtod fmt_d fmt_g15 fmt_g17 sscanf_lg ->
+  forall n, printable n = true -> rt_ok n = true ->
+  printable (reparsed strtod fmt_d fmt_g15 fmt_g17 sscanf_lg n) = true /\
+  rt_ok (reparsed strtod fmt_d fmt_g15 fmt_g17 sscanf_lg n) = true /\
+  cdepth (reparsed strtod fmt_d fmt_g15 fmt_g17 sscanf_lg n) = cdepth n.
+Proof. exact reparsed_hyps. Qed.
+Print Assumptions C04_reparsed_hyps.
+
 (** * The buffer-level print entry points (printer refinement, PrintProofs.v) *)
 
 (** [fields_ok n] (PrintDefs.v): every node carries a C int and a well-formed double.
